@@ -497,7 +497,7 @@ const NUMERIC_ITEMS: u64 = 1001;
 /// every status code 100..=999, one item per hundred
 const STATUS_SWEEP_ITEMS: u64 = 9;
 /// body sizes of the size family (quick: the first five)
-const SIZES: [usize; 12] = [0, 1024, 32768, 65537, (1 << 20) + 1, 1, 1023, 32767, 32769, 1 << 20, 3 << 20, 8 << 20];
+const SIZES: [usize; 11] = [0, 1024, 32768, 65537, (1 << 20) + 1, 1, 1023, 32767, 32769, 1 << 20, 3 << 20];
 
 fn size_items(tier: Tier) -> u64 {
     if tier == Tier::Quick { 5 } else { SIZES.len() as u64 }
@@ -662,7 +662,7 @@ impl Check for C05 {
     fn rule(&self, tier: Tier) -> String {
         let (sp, te, tl) = space(tier);
         format!(
-            "full product version{{0.9,1.0,1.1}} x status{:?} x (threshold,length){} pairs x HEAD x upgrade x 6 ways of building the response and declaring its length (constructor argument, Content-Length header through with_header or the constructor list, boxed(), with_data, with_status_code) x the chunking threshold set after the response is complete or before its last building step x {} TE values (absent, singles in 3 letter cases, all ordered pairs{} of chunked/identity/gzip with q in {{absent,1,0.9,0.5,0.001,0}}, OWS variants, {} malformed-q robustness values) = {} configurations, plus the numeric family: EVERY pair of three-decimal weights 0.000..1.000 for chunked and identity in both listing orders (2 004 002 TE values, HTTP/1.1, status 200), the size family: bodies of 0 / 1024 / 32768 / 65537 / 1 MiB + 1 bytes (thorough: 12 sizes up to 8 MiB), declared or not (an undeclared body is selected for as 'unknown' whatever the reader yields), x every well-formed TE value x versions x statuses 200/404; and EVERY status code 100..999 x 5 (threshold, length) pairs x versions 1.0/1.1 x TE absent / chunked, each printed by Response::raw_print and compared with the reference selection function; non-trivial = version 1.1 and status not 1xx/204 (selection not forced)",
+            "full product version{{0.9,1.0,1.1}} x status{:?} x (threshold,length){} pairs x HEAD x upgrade x 6 ways of building the response and declaring its length (constructor argument, Content-Length header through with_header or the constructor list, boxed(), with_data, with_status_code) x the chunking threshold set after the response is complete or before its last building step x {} TE values (absent, singles in 3 letter cases, all ordered pairs{} of chunked/identity/gzip with q in {{absent,1,0.9,0.5,0.001,0}}, OWS variants, {} malformed-q robustness values) = {} configurations, plus the numeric family: EVERY pair of three-decimal weights 0.000..1.000 for chunked and identity in both listing orders (2 004 002 TE values, HTTP/1.1, status 200), the size family: bodies of 0 / 1024 / 32768 / 65537 / 1 MiB + 1 bytes (thorough: 11 sizes up to 3 MiB), declared or not (an undeclared body is selected for as 'unknown' whatever the reader yields), x every well-formed TE value x versions x statuses 200/404; and EVERY status code 100..999 x 5 (threshold, length) pairs x versions 1.0/1.1 x TE absent / chunked, each printed by Response::raw_print and compared with the reference selection function; non-trivial = version 1.1 and status not 1xx/204 (selection not forced)",
             STATUSES, tl.len(), te.len(),
             if tier == Tier::Thorough { " and triples" } else { "" },
             te.iter().filter(|t| t.as_ref().map_or(false, |t| t.members.is_none())).count(),
